@@ -101,7 +101,7 @@ def scal_val(j, c):
     return 100 + j if c != "d" else 0.5 + j
 
 
-def generate(shapes, variants_for):
+def generate(shapes, variants_for, indirect=None):
     """returns (go source, c source, expected lines {tag: [ints]})"""
     g = Gen()
     cfun, gofun, gomain, expected = [], [], [], {}
@@ -152,12 +152,185 @@ def generate(shapes, variants_for):
         expected["T %d cbret" % k] = [sum((20 + i + 2) * w for i, w in enumerate(weights))]
         gofun.append("func test_%d() {\n%s\n}" % (k, "\n".join(body)))
         gomain.append("\ttest_%d()" % k)
+    iinfo = []
+    if indirect:
+        ic, ig, ib, ie = generate_indirect(g, indirect)
+        cfun += ic
+        gofun += ig
+        gomain += ib
+        expected.update(ie)
+        iinfo = indirect
     csrc = "#include <string.h>\n\n" + "\n\n".join(g.cdefs) + "\n\n" + "\n".join(cfun) + "\n"
     gosrc = ("package main\n\nimport \"unsafe\"\n\nconst LLGoFiles = \"wrap/wrap.c\"\n\nvar _ unsafe.Pointer\n\n"
              "func b2i(b bool) int64 {\n\tif b {\n\t\treturn 1\n\t}\n\treturn 0\n}\n\n" +
              "\n\n".join(g.godefs) + "\n\n" + "\n\n".join(gofun) +
              "\n\nfunc main() {\n" + "\n".join(gomain) + "\n\tprintln(\"DONE\")\n}\n")
     return gosrc, csrc, expected
+
+
+# ---- indirect calls: C function pointers and Go func values holding C functions ----
+def _S(*fs):
+    return ("s", list(fs))
+
+
+def indirect_shapes():
+    I1, I2, I4, I8, F4, F8, P = SCALARS
+    args = {
+        "keep": [_S(F8), _S(I4)],
+        "w1": [_S(I4, I4), _S(F4, F4), _S(I2, I2, I4)],
+        "w2": [_S(I8, I8), _S(F8, F4), _S(I4, I4, I4), _S(F4, F4, F4)],
+        "mem": [_S(I8, I8, I8), ("s", [("a", 8, I4)]), _S(F8, F8, F8), _S(I4, ("a", 2, F8), I1)],
+    }
+    results = [("void", None), ("scalar", "i"), ("scalar", "d"),
+               ("w1", _S(I2, I2, I4)), ("w1", _S(F4, F4)), ("w1", _S(I1, I1, I1)),
+               ("w2", _S(I4, I4, I4)), ("w2", _S(F8, F4)), ("w2", _S(I8, I8)), ("w2", _S(F4, F4, F4)), ("w2", _S(I1, I8)),
+               ("mem", _S(I8, I8, I8)), ("mem", ("s", [("a", 5, I4)]))]
+    return args, results
+
+
+def reg_need(t):
+    """(integer registers, sse registers) a flat by-value argument takes; (0, 0) when it goes to memory"""
+    size, _ = size_align(t)
+    if size > 16:
+        return 0, 0
+    eb = {}
+    off = [0]
+
+    def walk(t, base):
+        if is_scalar(t):
+            eb.setdefault(base // 8, set()).add("s" if t[0] == "f" else "i")
+            return
+        if t[0] == "a":
+            s, _ = size_align(t[2])
+            for i in range(t[1]):
+                walk(t[2], base + i * s)
+            return
+        o = 0
+        for f in t[1]:
+            s, a = size_align(f)
+            o = (o + a - 1) // a * a
+            walk(f, base + o)
+            o += s
+    walk(t, 0)
+    ni = sum(1 for c in eb.values() if "i" in c)
+    return ni, len(eb) - ni
+
+
+def indirect_configs(rng, n_per_result):
+    """[(result kind, result shape/scalar, [arg spec])]; arg spec = ('i',) | ('d',) | ('w',) | shape.
+    Every config keeps within the 6 integer / 8 SSE argument registers, so that the recorded
+    register-pressure finding cannot interfere; every result class meets by-value arguments of every class."""
+    args, results = indirect_shapes()
+    classes = ["keep", "w1", "w2", "mem"]
+    layouts = [["A"], ["i", "A"], ["A", "w", "B"], ["d", "A", "B"], ["A", "B", "C"], ["i", "d", "A", "w"], ["A", "d", "B", "i"]]
+    out = []
+    for ri, (rk, rs) in enumerate(results):
+        k = 0
+        tries = 0
+        while k < n_per_result and tries < 200:
+            tries += 1
+            lay = layouts[(ri + k + tries) % len(layouts)] if tries > 1 else layouts[(ri + k) % len(layouts)]
+            spec = []
+            for j, x in enumerate(lay):
+                if x in "idw":
+                    spec.append((x,))
+                else:
+                    # rotate through the classes so that each result class sees each argument class, memory class most often
+                    cl = classes[(ri + k + j + (0 if j else 3)) % 4] if rng.random() < 0.6 else "mem"
+                    if k == 0 and j == 0:
+                        cl = "mem"      # every result class meets a memory-class (byval) argument first
+                    spec.append(rng.choice(args[cl]))
+            ni = (1 if rk == "mem" else 0) + sum(1 for x in spec if x in (("i",), ("w",)))
+            ns = sum(1 for x in spec if x == ("d",))
+            for x in spec:
+                if len(x) > 1 or x[0] == "s":
+                    if x[0] == "s":
+                        a, b = reg_need(x)
+                        ni, ns = ni + a, ns + b
+            if ni > 6 or ns > 8:
+                continue
+            out.append((rk, rs, spec))
+            k += 1
+    return out
+
+
+def generate_indirect(g, configs):
+    """C and Go text for the indirect-call tests; returns (c functions, go decls, go main lines, expected)"""
+    cfun, gofun, body, expected = ["static long long last_cs;", "long long get_last_cs(void) { return last_cs; }"], \
+        ["//go:linkname get_last_cs C.get_last_cs\nfunc get_last_cs() int64"], [], {}
+    for j, (rk, rs, spec) in enumerate(configs):
+        cparams, gparams, callargs, terms, setup = [], [], [], [], []
+        w = 1
+        total = 0
+        for ai, x in enumerate(spec):
+            if x in (("i",), ("d",), ("w",)):
+                c = x[0]
+                v = 3 + ai + j % 5
+                cparams.append("%s a%d" % (SC_C[c], ai))
+                gparams.append("a%d %s" % (ai, SC_GO[c]))
+                callargs.append(str(v) if c != "d" else "%d.0" % v)
+                terms.append("(long long)a%d * %dLL" % (ai, w))
+                total += v * w
+                w += 1
+            else:
+                cn, gn = g.tyname(x)
+                cparams.append("%s a%d" % (cn, ai))
+                gparams.append("a%d %s" % (ai, gn))
+                callargs.append("v%d" % ai)
+                setup.append("\t\tvar v%d %s" % (ai, gn))
+                for i, (p, ty) in enumerate(leaves(x)):
+                    v = (j * 7 + ai * 11 + i * 3) % 40 + 1
+                    setup.append("\t\t" + go_set("v%d" % ai, p, ty, str(v)))
+                    terms.append("%s * %dLL" % (c_get("a%d" % ai, p, ty), w))
+                    total += v * w
+                    w += 1
+        cs = " + ".join(terms)
+        if rk == "void":
+            cret, gret = "void", ""
+            cbody = "last_cs = %s;" % cs
+            want = [total]
+        elif rk == "scalar":
+            cret, gret = SC_C[rs], " " + SC_GO[rs]
+            cbody = "return (%s)(%s);" % (SC_C[rs], cs)
+            want = [total]
+        else:
+            cret, gret = g.tyname(rs)
+            gret = " " + gret
+            lv = leaves(rs)
+            cbody = "long long cs = %s; %s r; memset(&r, 0, sizeof r); %s return r;" % (
+                cs, cret, " ".join("r%s = %s;" % (p, "(void*)(long)(cs %% 50 + %d)" % i if ty[0] == "p" else "(%s)(cs %% 50 + %d)" % (CT[ty], i))
+                                   for i, (p, ty) in enumerate(lv)))
+            want = [total % 50 + i for i in range(len(lv))]
+        cp = ", ".join(cparams)
+        names = ", ".join("a%d" % i for i in range(len(spec)))
+        cfun.append("static %s impl_%d(%s) { %s }" % (cret, j, cp, cbody))
+        cfun.append("%s dir_%d(%s) { %simpl_%d(%s); }" % (cret, j, cp, "" if rk == "void" else "return ", j, names))
+        cfun.append("typedef %s (*fp_%d_t)(%s);" % (cret, j, cp))
+        cfun.append("fp_%d_t get_%d(void) { return impl_%d; }" % (j, j, j))
+        cfun.append("fp_%d_t getc_%d(void) { return impl_%d; }" % (j, j, j))
+        gp = ", ".join(gparams)
+        gofun.append("//go:linkname get_%d C.get_%d\nfunc get_%d() func(%s)%s" % (j, j, j, gp, gret))
+        gofun.append("//llgo:type C\ntype fpT_%d func(%s)%s" % (j, gp, gret))
+        gofun.append("//go:linkname getc_%d C.getc_%d\nfunc getc_%d() fpT_%d" % (j, j, j, j))
+        gofun.append("//go:linkname dir_%d C.dir_%d\nfunc dir_%d(%s)%s" % (j, j, j, gp, gret))
+        gofun.append("var fv_%d = dir_%d" % (j, j))
+        call = ", ".join(callargs)
+        lines = ["\t{"] + setup
+        for way, fexpr in (("fp", "get_%d()" % j), ("cfp", "getc_%d()" % j), ("fv", "fv_%d" % j)):
+            tag = "I %d %s" % (j, way)
+            lines.append("\t\t{\n\t\t\tf := %s" % fexpr)
+            if rk == "void":
+                lines.append("\t\t\tf(%s)\n\t\t\tprintln(\"%s\", get_last_cs())" % (call, tag))
+            elif rk == "scalar":
+                lines.append("\t\t\tprintln(\"%s\", int64(f(%s)))" % (tag, call))
+            else:
+                lines.append("\t\t\tr := f(%s)\n\t\t\tprintln(\"%s\", %s)" % (call, tag, ", ".join(go_get("r", p, ty) for p, ty in leaves(rs))))
+            lines.append("\t\t}")
+            expected[tag] = want
+        lines.append("\t}")
+        gofun.append("func itest_%d() {\n%s\n}" % (j, "\n".join(lines)))
+        body.append("\titest_%d()" % j)
+    return cfun, gofun, body, expected
 
 
 # ---- shape generation ----
